@@ -133,7 +133,8 @@ def cat(op, inputs, dim=0):
                 # Cat is not supported for float8
                 return qfallback(op, inputs, dim)
             out_data = op([t1._data, t2._data], dim)
-            return QBytesTensor(t1.qtype, t1.axis, out_data.size(), out_data.stride(), out_data, t1._scale)
+            # The result owns its scale
+            return QBytesTensor(t1.qtype, t1.axis, out_data.size(), out_data.stride(), out_data, t1._scale.clone())
     return qfallback(op, inputs, dim)
 
 
@@ -197,7 +198,8 @@ def neg(op, input, *args, **kwargs):
     # The lowest integer code has no positive counterpart: saturate it instead of letting its negation wrap around
     data = torch.clamp(input._data, min=-torch.iinfo(input._data.dtype).max)
     out_data = op(data, *args, **kwargs)
-    return QBytesTensor(input.qtype, input.axis, input.size(), input.stride(), out_data, input._scale)
+    # The result owns its scale
+    return QBytesTensor(input.qtype, input.axis, input.size(), input.stride(), out_data, input._scale.clone())
 
 
 @register_qbytestensor_op(
@@ -294,7 +296,8 @@ def relu(op, input):
         # Relu is not supported for float8 types
         return qfallback(op, input)
     out_data = op(input._data)
-    return QBytesTensor(input.qtype, input.axis, input.size(), input.stride(), out_data, input._scale)
+    # The result owns its scale
+    return QBytesTensor(input.qtype, input.axis, input.size(), input.stride(), out_data, input._scale.clone())
 
 
 @register_qbytestensor_op([torch.ops.aten._softmax])
@@ -321,7 +324,8 @@ def stack(op, inputs, dim=0):
             and t1.qtype == t2.qtype
         ):
             out_data = op([t1._data, t2._data], dim)
-            return QBytesTensor(t1.qtype, t1.axis, out_data.size(), out_data.stride(), out_data, t1._scale)
+            # The result owns its scale
+            return QBytesTensor(t1.qtype, t1.axis, out_data.size(), out_data.stride(), out_data, t1._scale.clone())
     return qfallback(op, inputs, dim)
 
 
